@@ -197,7 +197,27 @@ func Intersection(a0, a1, b0, b1 Point) Point {
 	// (a0 + a1) and (b0 + b1) both have positive dot product with the
 	// intersection point.  We use the sum of all vertices to make sure that the
 	// result is unchanged when the edges are swapped or reversed.
-	if pt.Dot((a0.Add(a1.Vector)).Add(b0.Add(b1.Vector))) < 0 {
+	d := pt.Dot((a0.Add(a1.Vector)).Add(b0.Add(b1.Vector)))
+	if math.Abs(d) < 32*dblEpsilon {
+		// The sum of the vertices is so short (an edge of nearly 180 degrees
+		// crossed next to one of its endpoints) that the sign of d is decided
+		// by the rounding errors of the inputs. Decide exactly instead: the
+		// intersection point on the edges is s * (aNorm x bNorm) where s is the
+		// side of the plane of B that a0 lies on.
+		a0P := r3.PreciseVectorFromVector(a0.Vector)
+		a1P := r3.PreciseVectorFromVector(a1.Vector)
+		bNormP := r3.PreciseVectorFromVector(b0.Vector).Cross(r3.PreciseVectorFromVector(b1.Vector))
+		xP := a0P.Cross(a1P).Cross(bNormP)
+		s := a0P.Dot(bNormP).Sign()
+		if s == 0 {
+			s = -a1P.Dot(bNormP).Sign()
+		}
+		// (xP is zero for collinear edges; the endpoint chosen then is already
+		// on the correct side.)
+		if s*r3.PreciseVectorFromVector(pt.Vector).Dot(xP).Sign() < 0 {
+			pt = Point{pt.Mul(-1)}
+		}
+	} else if d < 0 {
 		pt = Point{pt.Mul(-1)}
 	}
 
